@@ -732,13 +732,20 @@ class Check(object):
         if do_agree:
             rep = self.drv.ask('agree 0 0 K ' + line)
             ctx.bump('ScopeAgree:' + rep)
-            # model-level test of the (unproved) implication  ScopeAgree p  =>  the renaming preserves the binding structure
+            # model-level tests, per program:  (a) the missing lemma  `not excluded p  =>  alignedOf p`  (Props/C07.lean),
+            # (b) the proved theorem  `alignedOf p  =>  bindingPreserved p`  (a driver/definition sanity check)
             for fl in (('0 0 K', '1 1 K') if len(text) < 3000 else ()):
                 pres = self.drv.ask('preserved %s %s' % (fl, line))
+                al = self.drv.ask('aligned %s %s' % (fl, line))
+                ex = self.drv.ask('excluded %s %s' % (fl[0], line))
                 ctx.bump('model:bindingPreserved[%s]:%s' % (fl, pres))
+                ctx.bump('model:aligned[%s]:%s' % (fl, al))
+                ctx.bump('model:excluded[%s]:%s' % (fl, ex))
                 self.n_impl += 1
-                if rep == 'OK T' and pres == 'OK F':
-                    self.impl_fail.append(dict(text=text[:400], flags=fl))
+                if ex.startswith('OK F') and al != 'OK T':
+                    self.impl_fail.append(dict(text=text[:400], flags=fl, what='not excluded but not aligned: %s' % al))
+                if al == 'OK T' and pres != 'OK T':
+                    self.impl_fail.append(dict(text=text[:400], flags=fl, what='aligned but not preserved (contradicts binding_preserved_partial)'))
         for cfg in cfgs:
             ctx.case((cfg.id, text))
             ctx.bump('origin:' + origin)
@@ -795,7 +802,7 @@ class Check(object):
             ctx.violation('obfuscation breaks the property (%s): %r with %s: %s'
                           % (', '.join(key), small[:300], cfg.id, sfails[0][1][:300]),
                           dict(kind='program', text=small, printer=cfg.todict(), categories=list(key)), True)
-        ctx.obligation('model: ScopeAgree p implies bindingPreserved p (Proofs/ObfRename.lean; tested per program, not proved)',
+        ctx.obligation('model: not excluded implies aligned (the lemma missing for binding_preserved; tested per program), aligned implies preserved',
                        not self.impl_fail, 'tie', '%d (program, flags) pairs; counterexamples: %r' % (self.n_impl, self.impl_fail[:2]))
         for stage, what in (('S7', 'Obfuscator state after the prewalk (scope tree, counts, remap tables, resolved names) vs drv_obf'),
                             ('S4', 'fragment streams of the obfuscating printers vs Model.Obfuscate + Model.Unparse'),
